@@ -130,7 +130,16 @@ pub fn gen_base(rng: &mut Rng, rich: bool) -> Value {
             );
         }
         if rich && rng.chance(1, 2) {
-            comps.insert("headers".into(), json!({"X-Rate": {"style": "simple", "schema": small_schema(rng)}}));
+            // header components, some named like headers that programs declare (a name in the base never replaces
+            // what the program says about its own responses)
+            let mut hs = Map::new();
+            hs.insert("X-Rate".into(), json!({"style": "simple", "schema": small_schema(rng)}));
+            for n in ["ETag", "X-Id", "If-Match", "x-n", "Accept-Language"] {
+                if rng.chance(1, 2) {
+                    hs.insert(n.into(), json!({"description": "from the base", "schema": small_schema(rng)}));
+                }
+            }
+            comps.insert("headers".into(), Value::Object(hs));
         }
         if rich && rng.chance(1, 2) {
             comps.insert("examples".into(), json!({"ex": {"summary": "an example", "value": {"a": 1}}}));
